@@ -202,7 +202,10 @@ Create(F, design, Xs0, K0, rcc, mode, align) ==
           align |-> align, T |-> T, gp |-> gp,
           \* errors that synthesis reports instead of returning sequences (R1, C15)
           unsat |-> \/ (rcc /\ incomplete)
-                    \/ \E i \in derived : Partial(F, i)]
+                    \/ \E i \in derived : Partial(F, i),
+          \* a required complete crossing that cannot be complete: the design is an error; the documentation defines
+          \* the reduced size only "when complete crossing is not required", so T is not compared for such designs (C16)
+          rccerr |-> rcc /\ incomplete]
 
 -----------------------------------------------------------------------------
 (* Public constructors *)
